@@ -89,7 +89,8 @@ extern ssize_t mpt_encode_string(MPT_STRUCT(encode_state) *info, const struct io
 			}
 			return MPT_ERROR(MissingData);
 		}
-		info->done -= off;
+		/* keep data up to and including the separator in front of the removed message */
+		info->done = off + 1 - sep;
 		
 		return off;
 	}
